@@ -64,6 +64,8 @@ VALS = {
     "tiny": (SCAL2, [[], [0]]),
     "fmid": (SCAL4, [[], [0], ["s"], [0, "s"], ["s", 0, 0]]),   # part F: lengths 0..3, both element types
     "fsmall": (SCAL2, [[], [0], [0, "s"]]),
+    # values that Python's == holds equal and JSON does not: 1 / true / 1.0, 0 / false
+    "twins": ([0, 1, True, False, 1.0], [[], [1], [True]]),
 }
 
 # family: part, keys, depth, lo<=slots<=hi, value alphabet, must (a key that has to occur or None), m (sub-blocks)
@@ -77,6 +79,8 @@ FAMILIES = {
         dict(part="A", keys=["a", "*"], depth=2, lo=2, hi=2, vals="tiny", must="*", m=2),
         dict(part="P", keys=["a", "b"], depth=3, lo=0, hi=1, vals="full", must=None, m=12),
         dict(part="P", keys=["a", "b"], depth=2, lo=2, hi=2, vals="small", must=None, m=12),
+        dict(part="P", keys=["a", "b"], depth=2, lo=0, hi=2, vals="twins", must=None, m=8),
+        dict(part="F", keys=["a", "b"], depth=2, lo=0, hi=1, vals="twins", must=None, m=4),
     ] + [dict(part="P", keys=["a", k], depth=2, lo=0, hi=1, vals="full", must=k, m=3) for k in SPECIAL] + [
         dict(part="A", keys=["a", "b"], depth=3, lo=0, hi=2, vals="fsmall", must=None, m=12),
     ] + [dict(part="A", keys=["a", k], depth=3, lo=0, hi=1, vals="fmid", must=k, m=1) for k in SPECIAL] + [
@@ -91,6 +95,8 @@ FAMILIES = {
         dict(part="P", keys=["a", "b"], depth=3, lo=0, hi=1, vals="full", must=None, m=8),
         dict(part="P", keys=["a", "b"], depth=3, lo=2, hi=2, vals="small", must=None, m=48),
         dict(part="P", keys=["a", "b"], depth=2, lo=3, hi=3, vals="small", must=None, m=48),
+        dict(part="P", keys=["a", "b"], depth=3, lo=0, hi=2, vals="twins", must=None, m=16),
+        dict(part="F", keys=["a", "b"], depth=3, lo=0, hi=2, vals="twins", must=None, m=16),
     ] + [dict(part="P", keys=["a", k], depth=2, lo=0, hi=2, vals="small", must=k, m=8) for k in SPECIAL] + [
         dict(part="A", keys=["a", "b"], depth=3, lo=0, hi=2, vals="small", must=None, m=24),
         dict(part="A", keys=["a", "b", "a/b"], depth=2, lo=0, hi=2, vals="tiny", must="a/b", m=2),
